@@ -44,7 +44,7 @@ def scenarios(tier):
     else:
         out.append({'name': 'cold-2files', 'procs': [['d1', 'file'], ['d2', 'file']], 'trash': 'cold'})
         out.append({'name': 'warm-3files', 'procs': [['d1', 'file'], ['d2', 'file'], ['d3', 'file']], 'trash': 'warm'})
-        out.append({'name': 'cold-3files(pb2)', 'procs': [['d1', 'file'], ['d2', 'file'], ['d3', 'tree']], 'trash': 'cold', 'bound': 2})
+        out.append({'name': 'cold-3files(pb1)', 'procs': [['d1', 'file'], ['d2', 'file'], ['d3', 'tree']], 'trash': 'cold', 'bound': 1})
     return out
 
 
